@@ -170,6 +170,39 @@ extern "C" void h_file_repeat(int ver, int feat, int raw) {
 		}
 		sym_assert(pq == pq2, "C02-query-partitions-answer: GetShapePartitions answers differently after a save");
 	}
+	// an edited model: caches filled by a query, vertices moved (same count) and vertex colours switched on (a vertex
+	// format change), then saves interleaved with queries - every save writes the same bytes
+	{
+		NifFile ed(nif);
+		if (NiShape* s = ed.FindBlockByName<NiShape>("Shape")) {
+			std::vector<Vector3> v;
+			ed.GetVertsForShape(s, v);
+			for (auto& p : v) {
+				p.x += 16.0f;
+				p.y += 3.0f;
+			}
+			ed.SetVertsForShape(s, v);
+			std::vector<Color4> cols(v.size(), Color4(0.5f, 0.25f, 1.0f, 1.0f));
+			ed.SetColorsForShape("Shape", cols);
+		}
+		FmRange e1 = fm_save(ed, raw != 0);
+		auto eq1 = digest(ed);
+		FmRange e2 = fm_save(ed, raw != 0);
+		auto eq2 = digest(ed);
+		FmRange e3 = fm_save(ed, raw != 0);
+		if (raw)
+			sym_assert(sym_out_equal(e1.a, e1.b, e2.a, e2.b), "C02-edited-repeat: second save of an edited model differs from the first");
+		sym_assert(sym_out_equal(e2.a, e2.b, e3.a, e3.b), "C02-edited-repeat3: third save of an edited model differs from the second");
+		sym_assert(eq1 == eq2, "C02-edited-queries: queries answer differently between two saves of an edited model");
+		if (!raw) {
+			// default saves: the first one may still normalise; what it writes must already be what the second writes, block for block
+			Walk w1 = walk_header(out_bytes(e1)), w2 = walk_header(out_bytes(e2));
+			sym_assert(w1.ok && w2.ok && w1.numBlocks == w2.numBlocks && (e1.b - e1.a) - w1.hdrEnd == (e2.b - e2.a) - w2.hdrEnd,
+					   "C02-edited-repeat-size: second save of an edited model has other blocks than the first");
+			if (w1.ok && w2.ok && (e1.b - e1.a) - w1.hdrEnd == (e2.b - e2.a) - w2.hdrEnd)
+				sym_assert(sym_out_equal(e1.a + w1.hdrEnd, e1.b, e2.a + w2.hdrEnd, e2.b), "C02-edited-repeat-blocks: the blocks written by the second save of an edited model differ from the first");
+		}
+	}
 	// a model with several emptied child references (deleted shapes): saves must be repeatable from the first on
 	{
 		NifFile del(nif);
